@@ -41,4 +41,16 @@ def seeded {G X O : Type} (g0 : G) (eval : X → G → O × G) : Machine G X O w
   init := g0
   step := fun g x => let r := eval x g; (r.2, r.1)
 
+/-- the whole object: cache of the fixed cosmology AND the generator (`np.random.seed(g0)` before the history);
+    `eval c x g` is one evaluation with the cosmology in use `c` at point `x` starting from generator state `g`.
+    A deep copy / pickle round trip is a copy of the object part of this state (a copy that drops the lazily
+    built cache is the state with `none`); the generator is process-global and not part of the copy. -/
+def fullLikelihood {C G X O : Type} (build : C) (g0 : G) (eval : C → X → G → O × G) :
+    Machine (Option C × G) X O where
+  init := (none, g0)
+  step := fun s x =>
+    let c := match s.1 with | some c => c | none => build
+    let r := eval c x s.2
+    ((some c, r.2), r.1)
+
 end HierArc.State
